@@ -113,6 +113,39 @@ def eig_grad(cx, n=2, neig=2, mode="lowest", method="exacteig", withM=False, sec
     return "ok"
 
 
+def eig_grad_breaking(cx, method="custom_exacteig", neig=2):
+    """exactly degenerate lowest pair (e1, e1, e3), n=3: gradient of a basis-independent loss w.r.t. the RAW matrix entries,
+    i.e. also along directions that break the degeneracy (the parametrised scenarios only move along directions that keep it).
+    The matrix is A = V diag(e) V^T + (P + P^T)/2 with P an all-zero leaf; the reference is first-order perturbation theory for
+    the cluster: d sum_{i in D} e_i = tr(Pi_D dA),  d Pi_D = sum_{i in D, j not in D} (v_i v_j^T + v_j v_i^T) v_i^T dA v_j/(e_i-e_j)"""
+    n = 3
+    q = cx.sym("q", (4,))
+    cx.assume((q * q).sum() > 0.1)
+    V = rot3(q)
+    e2 = cx.sym("e", (2,))
+    cx.assume(e2[1] - e2[0] > 1e-2)
+    cx.assume(torch.all(e2.abs() < 10))
+    e = torch.stack([e2[0], e2[0], e2[1]])
+    A0 = torch.matmul(V * e.unsqueeze(-2), V.transpose(-2, -1))
+    P = cx.const(torch.zeros((n, n), dtype=torch.float64)).requires_grad_()
+    A = A0 + (P + P.transpose(-2, -1)) * 0.5
+    cx.plant("eigh", A0.detach(), (e.detach(), V.detach()))
+    ev, vec = symeig(LinearOperator.m(A, is_hermitian=True), neig=neig, mode="lowest", method=method)
+    S0 = cx.sym("S", (n, n))
+    Ssym = S0 + S0.transpose(-2, -1)
+    w = cx.sym("w", ())
+    D = vec[:, :2]
+    loss = w * ev[:2].sum() + (Ssym * torch.matmul(D, D.transpose(-2, -1))).sum()
+    gP, = grads(loss, [P])
+    VD, v3 = V[:, :2], V[:, 2:]
+    PiD = torch.matmul(VD, VD.transpose(-2, -1))
+    c = torch.matmul(VD.transpose(-2, -1), torch.matmul(Ssym, v3)) / (e[0] - e[2])      # (2,1): v_i^T S v_3 / (e_i - e_3)
+    R = torch.matmul(VD, torch.matmul(c, v3.transpose(-2, -1)))                           # sum_i c_i v_i v_3^T
+    GA = w * PiD + R + R.transpose(-2, -1)
+    cx.claim_eq("d/dA of a cluster-invariant loss at an exact degeneracy (all directions)", gP, (GA + GA.transpose(-2, -1)) * 0.5)
+    return "ok"
+
+
 def batch_mixed(cx, method="custom_exacteig"):
     """a batch with one exactly degenerate element and one with distinct eigenvalues (3x3, neig=3), basis-independent loss;
     run on the real code only (the regularised singular solve of the degenerate element is outside the symbolic engine)"""
@@ -238,6 +271,11 @@ def configs(tier):
             withM=True, degenerate=True, opts={"real_only": True, "validate": 4})
     add("aux_real_only/eig/exacteig/AM/n3/neig3/degenerate", eig_grad, n=3, neig=3, method="exacteig", withM=True, degenerate=True,
         opts={"real_only": True, "validate": 3})
+    for method in ("exacteig", "custom_exacteig"):
+        # auxiliary, concrete (seeded planted matrices on the real float64 code): the implicit backward solves an exactly
+        # singular shifted 3x3 system, which exact arithmetic cannot follow (float LAPACK + projection can)
+        add("aux_real_only/eig/%s/A/n3/neig2/degenerate/raw_entries" % method, eig_grad_breaking, method=method,
+            opts={"real_only": True, "validate": 4})
     add("svd/exacteig/full", svd_grad, mode="uppest", k=None)
     add("svd/custom_exacteig/k1/lowest", svd_grad, mode="lowest", k=1, method="custom_exacteig")
     add("svd/exacteig/wide2x3/mvonly", svd_grad_wide, opkind="mvonly")
